@@ -163,6 +163,35 @@ pub fn run(rep: &Report) {
         out
     };
     let two = |_: usize| vec![Cfg::CHEAP, Cfg { fmt: Fmt::Json, alg: Alg::HS256, decoys: true, hk: Hk::Es }];
+    // the path list as a list: reversed order, every path twice, both notations of one path together
+    let reordered = |u: &Value| -> Vec<Strat> {
+        let mut out = vec![];
+        let nodes = crate::refmodel::all_nodes(u);
+        for s in pipeline::all_strategies(u) {
+            if let Strat::Custom(p) = s {
+                if p.is_empty() {
+                    continue;
+                }
+                let mut r = p.clone();
+                r.reverse();
+                out.push(Strat::Custom(r));
+                let mut d = p.clone();
+                d.extend(p.iter().cloned());
+                out.push(Strat::Custom(d));
+                // every accepted notation of every listed node at once
+                let mut both = vec![];
+                for n in &nodes {
+                    let nots = crate::refmodel::notations(n);
+                    if nots.iter().any(|x| p.contains(x)) {
+                        both.extend(nots);
+                    }
+                }
+                out.push(Strat::Custom(both));
+            }
+        }
+        out
+    };
+    run_structures(rep, "S(3,3) x every Custom subset with the path list reversed / every path twice / all notations of each listed node together", &trees(3, 3), &reordered, &two, checks, false);
     run_structures(rep, "S(2,2) x every Custom subset + one malformed/dangling path (26 of them, front and back)", &small, &with_bad, &two, checks, false);
     // alphabets
     let base = if quick { trees(2, 2) } else { trees(3, 3) };
